@@ -27,3 +27,24 @@ def explain(model, t, depth=0, maxd=40, out=None):
         return out
     out.append('%sLEAF %s = %s' % ('  '*depth, str(t).replace('\n',' ')[:200], model.eval(t, model_completion=True)))
     return out
+
+
+def explain_bool(model, t, depth=0, maxd=6, out=None):
+    out = out if out is not None else []
+    v = model.eval(t, model_completion=True)
+    txt = str(t).replace('\n', ' ')
+    txt = ' '.join(txt.split())
+    out.append('%s[%s] %s' % ('  ' * depth, v, txt[:160]))
+    if depth >= maxd or not z3.is_app(t):
+        return out
+    k = t.decl().kind()
+    if k in (z3.Z3_OP_AND, z3.Z3_OP_OR, z3.Z3_OP_NOT, z3.Z3_OP_IMPLIES, z3.Z3_OP_ITE, z3.Z3_OP_EQ, z3.Z3_OP_DISTINCT):
+        for a in t.children():
+            if k == z3.Z3_OP_ITE and a is not t.arg(0):
+                cv = z3.is_true(model.eval(t.arg(0), model_completion=True))
+                if (a.eq(t.arg(1)) and not cv) or (a.eq(t.arg(2)) and cv):
+                    continue
+            explain_bool(model, a, depth + 1, maxd, out)
+    elif t.num_args() == 1:
+        explain_bool(model, t.arg(0), depth + 1, maxd, out)
+    return out
